@@ -328,7 +328,8 @@ def anchors_of(crates):
         j = b.j
         if j["kind"] != "AssocFn" and j["kind"] != "Fn":
             continue
-        if j["vis"] == "pub" or j.get("impl_trait") is not None or j.get("impl_adt") in ACCESSOR_ADTS:
+        # (a private helper of an accessor type — `fn pack(..)` — is not part of the accessor vocabulary: it is inlined)
+        if j["vis"] == "pub" or j.get("impl_trait") is not None or (j.get("impl_adt") in ACCESSOR_ADTS and not str(j["vis"]).startswith("in:")):
             a.add(p)
     for v in R0.variants():
         if not v.ok:
